@@ -36,7 +36,14 @@ def cmpOp {α : Type} [Cmp α] [Codec α] (op : String) (args : List String) : O
       pure [encBool (i.contains x)]
   | "rcontains" => do
       let (i, r) ← pInterval (α := α) args; let (x, _) ← pElem (α := α) r
-      pure [encBool (i.rangeContains x)]
+      pure [encBool (i.rangeContains x), encBool (i.rangeContains x)]
+  | "rbounds" => do
+      let (i, _) ← pInterval (α := α) args
+      let eb : Bound α → List String := fun
+        | .included a => ["In", Codec.enc a]
+        | .excluded a => ["Ex", Codec.enc a]
+        | .unbounded => ["Un"]
+      pure (eb i.startBound ++ eb i.endBound)
   | "intersects" => do
       let (i, r) ← pInterval (α := α) args; let (j, _) ← pInterval (α := α) r
       pure [encBool (i.intersects j)]
@@ -189,6 +196,33 @@ def natNumOps : NumOps Nat where
   one := 1
 def u8Extremes : Extremes Nat := ⟨0, 255⟩
 
+/-- `MIN`/`MAX` of each primitive integer type (`isize`/`usize` are 64-bit on the test platform) -/
+def intExtremes? (ty : String) : Option (Extremes Int) :=
+  let s (bits : Nat) : Extremes Int := ⟨-(2 ^ (bits - 1) : Int), (2 ^ (bits - 1) : Int) - 1⟩
+  let u (bits : Nat) : Extremes Int := ⟨0, (2 ^ bits : Int) - 1⟩
+  match ty with
+  | "i8" => some (s 8) | "i16" => some (s 16) | "i32" => some (s 32) | "i64" => some (s 64)
+  | "i128" => some (s 128) | "isize" => some (s 64)
+  | "u8" => some (u 8) | "u16" => some (u 16) | "u32" => some (u 32) | "u64" => some (u 64)
+  | "u128" => some (u 128) | "usize" => some (u 64)
+  | _ => none
+
+/-- `pairs n <type> <kind> a b => lo hi`: `(T, T)::from(Interval<T>)` for every integer instantiation -/
+def pairsOp (args : List String) : Option (List String) :=
+  match args with
+  | [ty, kind, a, b] => do
+      let ex ← intExtremes? ty
+      let a ← parseInt? a
+      let b ← parseInt? b
+      let iv : Interval Int ← match kind with
+        | "0" => some (.twoSided a b)
+        | "1" => some (.upper a)
+        | "2" => some (.lower b)
+        | _ => none
+      let p := @Interval.toPair Int ex iv
+      pure [toString p.1, toString p.2]
+  | _ => none
+
 def first (xs : List (Option (List String))) : Option (List String) :=
   xs.foldl (fun acc x => match acc with | some a => some a | none => x) none
 
@@ -205,7 +239,7 @@ def intervalOp (op ty : String) (args : List String) : Option (List String) :=
   | "u" => first [cmpOp (α := Nat) op args,
                   @extOp Nat natNumOps u8Extremes _ op args,
                   hashOp (α := Nat) (fun x => ["u8:" ++ toString x]) op args]
-  | "n" => cmpOp (α := Nat) op args
+  | "n" => if op == "pairs" then pairsOp args else cmpOp (α := Nat) op args
   | _ => none
 
 end StatsCI.Driver
